@@ -2,6 +2,7 @@ CONSTANTS
   Families = {"roaring"}
   Entries = {"unmarshal", "frag_open"}
   SrvEntries = {}
+  CtlEntries = {}
   PqlEntries = {}
   EnvEntries = {}
   MsgEntries = {}
